@@ -175,6 +175,12 @@ func (d *vfDHCP) MACByIP(ip netip.Addr) (mac net.HardwareAddr) {
 	return d.macByIP[ip]
 }
 
+// The sentinel record of QLogSentinel.
+const (
+	vfSentinelHost = "sentinel.vf.invalid"
+	vfSentinelIP   = "203.0.0.0"
+)
+
 // vfNoChecker is a hash-prefix checker double that never blocks.
 type vfNoChecker struct{}
 
@@ -227,11 +233,14 @@ type vfWorldConf struct {
 	StrictSNI  bool
 
 	// WithLogStats creates real query log and statistics in the data dir.
-	WithLogStats   bool
-	Anonymize      bool
-	QLogIgnored    []string
-	StatsIgnored   []string
-	QLogMemSize    uint
+	WithLogStats bool
+	Anonymize    bool
+	QLogIgnored  []string
+	StatsIgnored []string
+	QLogMemSize  uint
+	// QLogSentinel pre-creates querylog.json with one recent record (see
+	// vfNewWorld).
+	QLogSentinel   bool
 	FindClient     func(ids []string) (c *querylog.Client, err error)
 	ShouldCountCli func(ids []string) (ok bool)
 
@@ -466,6 +475,18 @@ func vfNewWorld(c *vfWorldConf) (w *vfWorld, err error) {
 			findClient = func(_ []string) (cl *querylog.Client, ferr error) { return nil, nil }
 		}
 		memSize := c.QLogMemSize
+		if c.QLogSentinel {
+			// A recent first record keeps the start-up rotation check of the
+			// query log (a goroutine Start spawns) from renaming the file at
+			// an arbitrary later moment: with no file at all that check races
+			// with the first flush.
+			line := fmt.Sprintf(`{"T":%q,"QH":%q,"QT":"A","QC":"IN","CP":"","IP":%q,"Result":{},"Elapsed":1000}`+"\n",
+				time.Now().Format(time.RFC3339Nano), vfSentinelHost, vfSentinelIP)
+			err = os.WriteFile(filepath.Join(dir, "querylog.json"), []byte(line), 0o644)
+			if err != nil {
+				return nil, fmt.Errorf("VERIF-INCONCLUSIVE sentinel: %w", err)
+			}
+		}
 		w.qlog, err = querylog.New(querylog.Config{
 			Logger:            logger,
 			Ignored:           qIgn,
